@@ -137,6 +137,35 @@ Example C13_pinned_read_dictionary_unverified :
   /\ path_check loader_check true true PathSeekThenRead DataPageV2 DictPage = Some AeadVerified.
 Proof. vm_compute. repeat split. Qed.
 
+(** The reader of a column across the row groups of a file,
+    Column.Pages / PagesFrom: one FilePages per row group, read one after
+    the other, sequentially or after a seek that went to the row group of the
+    page or to an earlier one, with or without offset index.  The body of the
+    page read, and of the dictionary page it needs, is fetched by a checking
+    loader; a row group before the one the seek went to is not read. *)
+Theorem C13_column_reader_verifies : forall enc dict p noindex k target,
+  column_path_check loader_check enc dict p noindex k target <> Some Unverified.
+Proof. exact column_path_never_unverified. Qed.
+Print Assumptions C13_column_reader_verifies.
+
+Theorem C13_column_reader_reads_the_page : forall enc dict p noindex k,
+  k <> DictPage -> p <> ColSeek RgBefore ->
+  column_path_check loader_check enc dict p noindex k k <> None /\
+  (dict = true -> column_path_check loader_check enc dict p noindex k DictPage <> None).
+Proof. exact column_path_reads_the_page. Qed.
+Print Assumptions C13_column_reader_reads_the_page.
+
+(** On the pinned tree the dictionary of a LATER row group was loaded without
+    check when the file is read without offset index (SeekToRow 0 on that row
+    group skips the dictionary page); with an offset index it is met in the
+    stream and checked. *)
+Example C13_pinned_column_reader_later_row_group :
+  column_path_check loader_check_pinned false true (ColSeek RgAfter) true DataPageV2 DictPage = Some Unverified
+  /\ column_path_check loader_check_pinned false true (ColSeek RgAfter) false DataPageV2 DictPage = Some CrcVerified
+  /\ column_path_check loader_check false true (ColSeek RgAfter) true DataPageV2 DictPage = Some CrcVerified
+  /\ column_path_check loader_check false true (ColSeek RgBefore) true DataPageV2 DataPageV2 = None.
+Proof. vm_compute. repeat split. Qed.
+
 (** Non-vacuity: a concrete message and a 32-bit burst that starts in the
     middle of a byte and ends in the middle of the byte four bytes later meet
     the hypotheses; the checksums are different numbers. *)
